@@ -306,7 +306,11 @@ void harness(void) {
 #ifdef ET_SYMTAGS
 	one(0);
 #else
+#ifdef ET_PAT
+	one(ET_PAT);                  /* one match pattern per job (the allocation-failure jobs) */
+#else
 	unsigned pat;
 	for (pat = 0; pat < (1u << ET_NK); pat++) one(pat);
+#endif
 #endif
 }
